@@ -79,7 +79,12 @@ impl Client for Counting {}
 
 pub fn block_bytes(id: u64, len: usize) -> Vec<u8> {
     let mut out = Vec::with_capacity(len + 8);
+    // the stream of a block starts at a mixed position: the streams of consecutive ids must not be shifted copies of
+    // each other (they would deduplicate against each other by accident)
     let mut x = id.wrapping_mul(0x9E3779B97F4A7C15).wrapping_add(0x1234567);
+    x = (x ^ (x >> 29)).wrapping_mul(0xD6E8FEB86659FD93);
+    x = (x ^ (x >> 32)).wrapping_mul(0xD6E8FEB86659FD93);
+    x ^= x >> 29;
     while out.len() < len {
         x = x.wrapping_add(0x9E3779B97F4A7C15);
         let mut z = x;
@@ -547,7 +552,9 @@ async fn run_async(ops: Vec<Vec<String>>, root: PathBuf, tp: Arc<ThreadPool>) ->
                 for &i in &sess_files {
                     let f = &files[i];
                     let earlier = files.iter().any(|g| g.session < f.session && g.recipe == f.recipe && g.salt == f.salt);
-                    if earlier && f.metrics.new_bytes > f.metrics.defrag_prevented_dedup_bytes {
+                    // (a range refused by fragmentation prevention is stored chunk by chunk; only its first chunk is counted as
+                    // withheld, so a re-upload with refusals cannot be judged from the counters)
+                    if earlier && f.metrics.new_bytes > 0 && f.metrics.defrag_prevented_dedup_chunks == 0 {
                         why.push(format!("[C11] re-upload of {} ({} bytes) reports {} new bytes (withheld by fragmentation prevention: {})", f.name, f.content.len(), f.metrics.new_bytes,
                             f.metrics.defrag_prevented_dedup_bytes));
                     }
